@@ -4,6 +4,7 @@ From PV Require Import Base.Index Base.Perm Base.Sum Np.Array Model.Sparse Model
   Model.C01Unique Model.C01Coo Model.C01Ttm Model.C01W3 Proofs.C01Proofs Proofs.C01Kruskal Proofs.C01Tucker Proofs.C01Unique
   Proofs.C01Converse Proofs.C01Coo Proofs.C01Ttm Proofs.C01W3.
 From Coq Require Import Permutation.
+From PV Require Np.NpZ Np.NpZ2 Gen.GenUtils2 Proofs.C01GenBridge.
 Import ListNotations.
 
 Section C01.
@@ -467,3 +468,25 @@ Example C01_example_w3 :
   ttensor_full_spcore 0%Z Z.add Z.mul (Z.eqb 0) G Us = Some (ttensor_full 0%Z Z.add Z.mul (mkT (full 0%Z G) Us)) /\
   option_map (fun D => den_dense 0%Z D [2; 1; 3]) (ttensor_full_spcore 0%Z Z.add Z.mul (Z.eqb 0) G Us) = Some 140%Z.
 Proof. repeat split; vm_compute; reflexivity. Qed.
+
+(* ---------------------------------------------------------------------------------------------------------
+   Tie to the translator: the function GENERATED from pyttb_utils.gather_wrap_dims on every run (Gen/GenUtils2.v, over
+   numpy integer vectors) answers, for every request form and every N, exactly what the hand model gather_wrap_dims of
+   C01_request_forms / to_tenmat_req / to_sptenmat_req / stm_ctor / tm_ctor answers (zv = map Z.of_nat, cyc_gen = the
+   cdims_cyclic string). An edit of gather_wrap_dims in /repo breaks this proof. *)
+Theorem C01_gather_wrap_dims_generated : forall N rd cd cy,
+  PV.Gen.GenUtils2.gather_wrap_dims (Z.of_nat N) (option_map C01GenBridge.zv rd) (option_map C01GenBridge.zv cd)
+    (option_map C01GenBridge.cyc_gen cy)
+  = match gather_wrap_dims N rd cd cy with
+    | Some (r, c) => NpZ.Ok (C01GenBridge.zv r, C01GenBridge.zv c)
+    | None => NpZ.Err
+    end.
+Proof. exact C01GenBridge.gather_wrap_dims_generated. Qed.
+
+Print Assumptions C01_gather_wrap_dims_generated.
+
+Example C01_example_generated :
+  PV.Gen.GenUtils2.gather_wrap_dims 4%Z (Some [1%Z]) None (Some NpZ2.CycBC) = NpZ.Ok ([1%Z], [0; 3; 2]%Z) /\
+  gather_wrap_dims 4 (Some [1]) None (Some CycBC) = Some ([1], [0; 3; 2]) /\
+  PV.Gen.GenUtils2.gather_wrap_dims 3%Z None (Some [2; 0]%Z) None = NpZ.Ok ([1%Z], [2; 0]%Z).
+Proof. repeat split; reflexivity. Qed.
